@@ -974,7 +974,7 @@ func checkC17(w *World) {
 		})
 		w.check(P, "R17.4", "prefix stripping covers a colon at any position", strip.Pos(), strict == "", "comparison of the colon position: "+orElse(strict, "absent or inclusive of position 0"))
 	}
-	w.floor(P, "R17.4", 7)
+	w.floorSites(P, "R17.4", 7)
 }
 
 func fieldName(fa *ssa.FieldAddr) string {
